@@ -200,6 +200,47 @@ Behaviour(w) ==
    >>]
 
 (***************************************************************************)
+(* Every KIND of composition model obeys its operation for the labels it   *)
+(* does not list.  A covering mantle layer paints compositions 0, 1, 2     *)
+(* with 1/4, 1/2, 3/4; then a feature with one composition model of a kind *)
+(* its type offers (uniform, smooth, tian water content, random), listing  *)
+(* label 0 only.  Prop: label 1 and 2 come back 0 under "replace" and      *)
+(* unchanged under every other operation.  (The value of the listed label  *)
+(* is the model's own business -- C05, C15.)                               *)
+(***************************************************************************)
+CKinds(ty) == CASE ty = "continental plate" -> {"uniform", "random"}
+                [] ty = "oceanic plate" -> {"uniform", "tian water content"}
+                [] ty = "subducting plate" -> {"uniform", "smooth", "tian water content"}
+                [] ty = "fault" -> {"uniform", "smooth"}
+                [] OTHER -> {"uniform"}
+CModelOf(ty, kind, op) ==
+  CASE kind = "uniform" -> CUniform(<<0>>, op)
+    [] kind = "random" -> ("model" :> "random") @@ ("compositions" :> <<0>>) @@ ("min value" :> <<Dec(25, -2)>>) @@ ("max value" :> <<Dec(75, -2)>>) @@ ("operation" :> op)
+    [] kind = "tian water content" -> ("model" :> "tian water content") @@ ("compositions" :> <<0>>) @@ ("lithology" :> "peridotite")
+                                       @@ ("initial water content" :> 2) @@ ("cutoff pressure" :> 10) @@ ("operation" :> op)
+    [] kind = "smooth" -> IF ty = "fault"
+                          THEN ("model" :> "smooth") @@ ("compositions" :> <<0>>) @@ ("min distance fault center" :> 0) @@ ("side distance fault center" :> 25 * Km)
+                               @@ ("center fractions" :> <<1>>) @@ ("side fractions" :> <<Dec(5, -1)>>) @@ ("operation" :> op)
+                          ELSE ("model" :> "smooth") @@ ("compositions" :> <<0>>) @@ ("min distance slab top" :> 0) @@ ("max distance slab top" :> 100 * Km)
+                               @@ ("top fractions" :> <<1>>) @@ ("bottom fractions" :> <<Dec(5, -1)>>) @@ ("operation" :> op)
+ClearCases == {<<ty, kind, op>> \in Types \X {"uniform", "random", "tian water content", "smooth"} \X COps : kind \in CKinds(ty)}
+ClearDoc(cs) ==
+  LET f == Feat(cs[1], "cover", EmptyMA, "")
+      body == Render(f, 2)
+  IN World(Cartesian, << Area("mantle layer", "base", Rect(-100*Km, -100*Km, 600*Km, 600*Km), 0, 700*Km, <<>>,
+                              <<CUniformF(<<0, 1, 2>>, <<Dec(25, -2), Dec(5, -1), Dec(75, -2)>>, "replace")>>, <<>>, <<>>),
+                         [body EXCEPT !["composition models"] = <<CModelOf(cs[1], cs[2], cs[3])>>] >>)
+     @@ ("thermal expansion coefficient" :> 0) @@ ("potential mantle temperature" :> Tp)
+ClearBehaviour(cs) ==
+  LET keep == cs[3] # "replace" IN
+  [id |-> <<"paint-clears", cs>>, labels |-> <<"paint", "unlisted-labels", cs[1], cs[2], cs[3]>>,
+   steps |-> << [op |-> "create", h |-> 1, wb |-> ClearDoc(cs)],
+                [op |-> "q", h |-> 1, dim |-> 3, p |-> <<250*Km, 250*Km, H - 50*Km>>, depth |-> 50*Km, props |-> <<PC(1), PC(2), PTag>>,
+                 expect |-> << [k |-> "eq", at |-> 0, v |-> IF keep THEN <<Dec(5, -1), Dec(75, -2)>> ELSE <<0, 0>>],
+                               [k |-> "tag", at |-> 2, name |-> cs[1]] >>] >>]
+EmitClears == \A cs \in ClearCases : PrintT(<<"B", ToJson(ClearBehaviour(cs))>>)
+
+(***************************************************************************)
 (* The machine                                                             *)
 (***************************************************************************)
 VARIABLE world
